@@ -218,6 +218,7 @@ func allChecks() []*Check {
 					Asserts: []string{"equal-on-entry", "private-from-original", "private-from-each-other", "original-unchanged", "each-handler-invoked-once"}},
 				{Pkg: "client", Func: "VerifC15Copies", Quick: map[string]int{"A": 1, "D": 2}, Thorough: map[string]int{"A": 1, "D": 3},
 					Asserts: []string{"equal-on-entry", "private-from-each-other"}, Note: "several events in a row; handlers keep and edit their lines after returning"},
+				{Pkg: "client", Func: "VerifC15Async", Sched: true, Quick: map[string]int{"SW": 1}, Thorough: map[string]int{"SW": 2}, Asserts: []string{"async:each-background-handler-invoked-once", "async:background-line-equals-its-event"}, Note: "a background handler that starts only after the reader has gone on to the next line still gets its own event"},
 				{Pkg: "client", Func: "VerifC15Copies", Quick: map[string]int{"A": 1, "MANY": 1}, Thorough: map[string]int{"A": 2, "MANY": 1, "D": 2},
 					Asserts: []string{"equal-on-entry", "private-from-each-other", "each-handler-invoked-once"}, Note: "9 / 17 / 33 handlers in the foreground or background set"},
 				{Pkg: "client", Func: "VerifC15Copies", Quick: map[string]int{"A": 1, "RECOVER": 1}, Thorough: map[string]int{"A": 2, "RECOVER": 1, "D": 2},
@@ -291,6 +292,7 @@ func allChecks() []*Check {
 				{Pkg: "client", Func: "VerifC01Deliver", Quick: map[string]int{"T": 1, "KL": 1, "VL": 1, "SL": 1, "VBL": 2, "TL": 1},
 					Thorough: map[string]int{"T": 1, "KL": 1, "VL": 2, "SL": 2, "VBL": 3, "TL": 3}, Asserts: []string{"delivered-equal", "next-line-delivered"}},
 				{Pkg: "client", Func: "VerifC01Deliver", Quick: map[string]int{"LONG": 1, "VBL": 1, "TL": 1}, Thorough: map[string]int{"LONG": 1, "VBL": 2, "TL": 2}, Asserts: []string{"delivered-equal", "next-line-delivered"}, Note: "long"},
+				{Pkg: "client", Func: "VerifC15Async", Sched: true, Quick: map[string]int{"SW": 1}, Thorough: map[string]int{"SW": 2}, Asserts: []string{"async:each-background-handler-invoked-once", "async:background-line-equals-its-event"}, Note: "a background handler that starts only after the reader has gone on to the next line still gets its own event"},
 			},
 			Bounds:      map[string]string{"quick": "<=1 tag (key 1 B, value <=2 B), source parts 1 B, verb <=2 letters or 3 digits, <=2 middles of <=2 B with 1-2 spaces, trailing <=2 B; two tags (keys 1 B, values <=1 B) with a minimal rest; 13-14 middle parameters of 1 B; CTCP: verb <=2 B or ACTION, text <=2 B; delivery through recv incl. a 4200-byte line", "thorough": "1 tag with value <=2 B, source parts <=2 B, verb <=2 letters, <=2 middles, trailing <=3 B; two tags with values <=2 B and one middle; 13-14 middles with a tag; CTCP verb <=3 B, text <=3 B (larger thorough bounds were tried and did not finish within 40 min: not claimed)"},
 			Outside:     []string{"bytes >= 0x80", "larger components", "what the property itself excludes (other white space, several spaces before the verb, CTCP without text, invalid escapes)"},
